@@ -186,6 +186,51 @@ def check_run(R, P, result, history, pset, instr):
     return nontrivial_steps, view, targeted
 
 
+def _reports(result):
+    out = {}
+    for k, v in result.get_alloc().items():
+        out[("alloc", k)] = np.array(v, dtype=float, copy=True)
+    for q in ("capacity", "eligible", "fraction", "number"):
+        for k, v in result.get_coverage(q).items():
+            out[(q, k)] = np.array(v, dtype=float, copy=True)
+    return out
+
+
+def check_reports_survive_later_edits(R, result, pset, instr):
+    """The reports of a finished run describe that run: what the caller does to the program set and the instructions
+    afterwards (the usual what-if workflow: edit, run again, compare both results) must not change them."""
+    before = _reports(result)
+
+    def scale(ts, f):
+        ts.vals = [v * f for v in ts.vals]
+        if ts.assumption is not None:
+            ts.assumption = ts.assumption * f
+
+    for i, prog in enumerate(pset.programs.values()):
+        scale(prog.spend_data, 3.0)
+        scale(prog.unit_cost, 0.25)
+        if prog.capacity_constraint.has_data:
+            scale(prog.capacity_constraint, 0.1)
+        if i % 2 == 0 and len(prog.target_comps) > 1:
+            prog.target_comps = list(prog.target_comps)[:-1]
+        if i % 3 == 0 and len(prog.target_pops) > 1:
+            prog.target_pops = list(prog.target_pops)[:-1]
+    for k, ts in instr.alloc.items():
+        scale(ts, 7.0)
+    for k, ts in instr.capacity.items():
+        scale(ts, 0.5)
+    for k, ts in instr.coverage.items():
+        scale(ts, 0.5)
+    instr.start_year = instr.start_year + 1.0
+    after = _reports(result)
+    R.count("report_arrays_requeried_after_editing_the_callers_program_set", len(before))
+    changed = sorted(k for k in before if k not in after or before[k].shape != after[k].shape or not np.array_equal(before[k], after[k], equal_nan=True))
+    if changed:
+        R.bad("reports-describe-the-run", "C13:report-follows-later-edits-of-the-callers-objects[%s]" % changed[0][0], {"changed": [list(k) for k in changed[:6]], "before": before[changed[0]][:4].tolist(), "after": after[changed[0]][:4].tolist() if changed[0] in after else None})
+    else:
+        R.ok("reports-describe-the-run")
+
+
 def run_case(case):
     import atomica as at
     import atomica.model as M
@@ -250,4 +295,5 @@ def run_case(case):
         R.inc("reported-coverage=used-coverage")
         return {"records": R.records(), "stats": R.stats, "nontrivial": False, "inconclusive": "hooks unavailable"}
     nt, view, targeted = check_run(R, P, result, history, pset, instr)
+    check_reports_survive_later_edits(R, result, pset, instr)
     return {"records": R.records(), "stats": R.stats, "nontrivial": nt >= 2, "sample": sample}
